@@ -554,7 +554,11 @@ def pwvs_unit(ctx):
 
     given, work = Plan("given"), Plan("work")
     inplace = ctx.choose(2, "inplace") == 0
-    OBS, MW, RETRY, FRESH = object(), object(), object(), object()
+    OBS, MW, FRESH = object(), object(), object()
+
+    def RETRY(f):      # a decorator (callable), identified by identity
+        return f
+
 
     def _update_stale_totals(plan, reg, obs):
         log.append(("_update_stale_totals", plan, reg, obs))
